@@ -374,6 +374,34 @@ func c16PerGroupDecoding(c *h.Collector) {
 		}
 		return body
 	}
+	// a file well beyond 4 KiB (sixteen fully specified groups): every group is decoded, in both formats
+	{
+		var many []cfg
+		for i := 0; i < 16; i++ {
+			g := full.clone()
+			g.set("name", fmt.Sprintf("group-%02d", i))
+			g.set("min_nodes", i+1)
+			g.set("max_nodes", i+10)
+			many = append(many, g)
+		}
+		for _, format := range []string{"json", "yaml"} {
+			body := render(format, many)
+			c.R.Evaluations++
+			c.Nontrivial("per-group/large/" + format)
+			o, err := decode(body)
+			if err != nil || len(o) != len(many) {
+				c.Report(h.Found{Violation: h.Violation{Prop: "C16", Sig: "C16/large-file-not-decoded-completely", Msg: fmt.Sprintf("a %s file of %d bytes with %d groups decodes to %d groups (error %v)", format, len(body), len(many), len(o), err)}, Scenario: "c16.per-group", Case: format})
+				continue
+			}
+			for i, g := range many {
+				one, err := decode(render(format, []cfg{g}))
+				if err != nil || len(one) != 1 || !reflect.DeepEqual(o[i], one[0]) {
+					c.Report(h.Found{Violation: h.Violation{Prop: "C16", Sig: "C16/group-decodes-differently-next-to-others", Msg: fmt.Sprintf("%s file with %d groups: group %d decodes to %+v, alone to %+v (%v)", format, len(many), i, o[i], one, err)}, Scenario: "c16.per-group", Case: format})
+					break
+				}
+			}
+		}
+	}
 	for _, format := range []string{"json", "yaml"} {
 		alone := map[string]controller.NodeGroupOptions{}
 		for _, g := range all {
